@@ -36,6 +36,8 @@ PINS = [
     'mesonbuild.backend.ninjabackend:NinjaBuildElement.add_dep',
     'mesonbuild.backend.ninjabackend:NinjaBuildElement.add_orderdep',
     'mesonbuild.backend.ninjabackend:NinjaBuild.write',
+    'mesonbuild.backend.ninjabackend:NinjaBackend.generate',
+    'mesonbuild.backend.backends:Backend.get_target_deps',
     'mesonbuild.utils.core:EnvironmentVariables.hash',
     'mesonbuild.backend.backends:Backend.get_executable_serialisation',
     'mesonbuild.backend.backends:Backend.create_test_serialisation',
@@ -304,6 +306,12 @@ def gen_cases(ctx: Ctx, mult: int = 1, only: T.Optional[T.Set[str]] = None) -> T
         for _v in range(V):
             variants.append({'reqs': reqs, 'vreqs': [[nm, rng.sample(vs, len(vs))] for nm, vs in vr]})
         group('formatreqs', variants)
+    # dependency cache key (list-valued keyword) and GeneratedList.depends -> intro-targets.json depends
+    for _ in range(n(60, 600)):
+        items = [rng.choice(['mod_z', 'mod_a', 'mod_m', 'b', 'é', 'x y']) for _ in range(rng.randint(0, 5))]
+        group('depid', [{'items': p} for p in perms(rng, items, V)])
+        tg = distinct(rng, rng.randint(0, 5), lambda: (rstr(rng, 4, 0) or 't') + '@cus')
+        group('genlistdeps', [{'items': tg + tg[:1]}])
     # cached compiler-check results: pickle round trip + the stderr-reading verdict of GNU-like compilers
     notes = ["cc1: warning: command-line option '-Wx' is valid for C++/ObjC++ but not for C\n",
              "cc1plus: warning: command-line option '-Wx' is valid for C/ObjC but not for C++\n",
@@ -468,7 +476,7 @@ def inproc_layer(ctx: Ctx, cases: T.List[dict], seeds: T.List[str], compare_mode
             ctx.tag('error:' + r['impl'].split(':')[1])
         if a != r['impl']:
             ctx.disagreement({'kind': c['kind'], 'case': strip_case(c), 'hashseed': seed, 'impl': r['impl'][:400], 'model': a[:400]})
-        nontrivial = (c['kind'] in ('sorted', 'buildline', 'envhash', 'cheader', 'optsort', 'buildopts', 'excludes', 'testser', 'depfile', 'formatreqs')
+        nontrivial = (c['kind'] in ('sorted', 'buildline', 'envhash', 'cheader', 'optsort', 'buildopts', 'excludes', 'testser', 'depfile', 'formatreqs', 'depid', 'genlistdeps')
                       and r['line'] != '' and len(json.dumps(strip_case(c))) > 60) or c['kind'] == 'fs'
         if nontrivial:
             ctx.seen_nontrivial((c['kind'], json.dumps(strip_case(c), sort_keys=True)))
